@@ -184,6 +184,11 @@ impl<'a, E: Endianity, const K: usize> RawView for FixLeb<'a, E, K> {
         (self.0.slice().as_ptr() as usize, self.0.len())
     }
 }
+impl<'a, E: Endianity, const K: usize> RawView for PosLeb<'a, E, K> {
+    fn view_of(&self) -> (usize, usize) {
+        (self.0.slice().as_ptr() as usize, self.0.len())
+    }
+}
 fn view<R: RawView>(a: &R) -> (usize, usize) {
     a.view_of()
 }
